@@ -439,6 +439,37 @@ pub fn run(cfg: &Config) -> i32 {
             }
         }
     }
+    // long messages: every type with a repeating sequence at 5, 40 and 150 occurrences (a few hundred bytes to
+    // tens of thousands): size must not change which entry point accepts a message
+    {
+        use crate::spec::layout::{self, Gen, GenOptions};
+        let first_env2: std::collections::BTreeMap<String, (String, String)> = bases.iter().filter_map(|(mt, text)| {
+            let b4 = crate::corpus::block4_of(text)?;
+            let i = text.find(b4.as_str())?;
+            Some((mt.clone(), (text[..i].to_string(), text[i + b4.len()..].to_string())))
+        }).collect();
+        for lay in layout::layouts() {
+            for max_seq in [5usize, 40, 150] {
+                let mut r = crate::rng::Rng::new(cfg.seed, &format!("c12-long:{}", lay.mt), max_seq as u64);
+                let opt = GenOptions { optional_per_mille: 500, max_repeat: 2, max_seq, maximal: true, minimal: false };
+                let mut g = Gen { r: &mut r, counter: 3, mt: lay.mt, opt, force_option: None, force_include: None };
+                let mut sink = Local::default();
+                let Some(mut w) = super::c03::build(&lay, &mut g, &mut sink, "c12-long") else { continue };
+                if lay.mt == "204" && w.fields.len() >= 2 && w.fields[1].tag == "19" {
+                    w.fields.swap(0, 1);
+                }
+                let Some((pre, post)) = first_env2.get(lay.mt) else { continue };
+                let toks: Vec<tok::Token> = w.fields.iter().map(|f| tok::Token { tag: f.tag.clone(), content: f.content.clone() }).collect();
+                let text = format!("{pre}\n{}\n{post}", tok::render(&toks, false, false));
+                // only messages the typed parser takes (documented repetition caps reject the longest ones)
+                if let Some(ops) = msg(lay.mt)
+                    && matches!(guard(|| (ops.parse_full)(&text)), Ok(Ok(_)))
+                {
+                    cases.push(Case::Code { code: lay.mt.to_string(), text });
+                }
+            }
+        }
+    }
     let n = cases.len() as u64;
     let total = par_for(cfg, n, |i, l| {
         let case = &cases[i as usize];
